@@ -170,9 +170,9 @@ def prop_v2(ctx, case):
         tid, code, q, data = e
         ident = EV.eid(code) & ~3
         name = f'{byid[ident]} ({hex(ident)})' if ident in byid else hex(ident)
-        expect = {0: str(1001 + 7 * k), 1: name, 2: QUAL[q], 3: hex(tid), 5: str(bytes(data))}
+        expect = {0: {str(1001 + 7 * k)}, 1: {name}, 2: {QUAL[q]}, 3: {hex(tid), str(tid)}, 5: {str(bytes(data))}}
         for i, content in expect.items():
-            if segs[i][k].strip() != content:
+            if segs[i][k].strip() not in content:
                 raise Violation(f'column-content:kevents:{SW[i]}', f'event {k}: column {SW[i]} shows {segs[i][k]!r}, expected {content!r}')
         check_process(segs[4][k].strip(), tid, [snaps[0], snaps[k], snaps[k + 1]], declared_names, declared_pids, 'kevents')
         if body[k] != '':
@@ -193,7 +193,7 @@ def prop_v2(ctx, case):
         for i in (1, 2, 5):
             if tsegs[i][k] != '':
                 raise Violation(f'column-content:traces:{SW[i]}', f'trace line grows by {tsegs[i][k]!r} with {SW[i]}')
-        if tsegs[0][k].strip() != str(first.timestamp) or tsegs[3][k].strip() != str(first.tid):
+        if tsegs[0][k].strip() != str(first.timestamp) or tsegs[3][k].strip() not in (str(first.tid), hex(first.tid)):
             raise Violation('column-content:traces', f'trace {k}: timestamp/tid columns {tsegs[0][k]!r} {tsegs[3][k]!r} expected {first.timestamp} {first.tid}')
         check_process(tsegs[4][k].strip(), first.tid, [snaps[trig], snaps[trig + 1]], declared_names, declared_pids, 'traces')
         if proc_text(snaps[trig + 1], first.tid) != proc_text(snaps[0], first.tid):
@@ -215,7 +215,7 @@ def prop_v2(ctx, case):
         for i in (1, 2, 5):
             if csegs[i][k] != '':
                 raise Violation(f'column-content:callstacks:{SW[i]}', f'callstack line grows by {csegs[i][k]!r} with {SW[i]}')
-        if not csegs[0][k].strip().isdigit() or not csegs[3][k].strip().isdigit() or not csegs[4][k].strip():
+        if not csegs[0][k].strip().isdigit() or not csegs[3][k].strip() or not csegs[4][k].strip():
             raise Violation('column-content:callstacks', f'callstack {k}: columns {csegs[0][k]!r} {csegs[3][k]!r} {csegs[4][k]!r}')
     if changed_then_used:
         cls.add('attribution-changed-before-line')
@@ -259,7 +259,7 @@ def prop_logs(ctx, case):
         date = logs.expected_instant(r['ud'])
         if segs[0][k].strip()[:19] != date.strftime('%Y-%m-%d %H:%M:%S'):
             raise Violation('column-content:logs:show_timestamp', f'log {k}: timestamp column {segs[0][k]!r}, record date {date}')
-        if segs[3][k].strip() != str(r['tid']):
+        if segs[3][k].strip() not in (str(r['tid']), hex(r['tid'])):
             raise Violation('column-content:logs:show_tid', f'log {k}: thread column {segs[3][k]!r}, record thread {r["tid"]}')
         has_proc = 'p' in r and strs[r['p']] != ''
         if has_proc and r['tid']:
